@@ -5,7 +5,8 @@ sys.path.insert(0, os.path.dirname(os.path.dirname(os.path.abspath(__file__))))
 from analysis import facts as F
 from analysis.facts import callee_name
 root = '/verif/.cache/facts'
-d = sys.argv[2] if len(sys.argv) > 2 else max((os.path.join(root, x) for x in os.listdir(root)), key=os.path.getmtime)
+from analysis import extract
+d = sys.argv[2] if len(sys.argv) > 2 else extract.extract('quick')[0]
 f = F.load_facts(d)
 pat = sys.argv[1]
 def P(pl):
